@@ -75,6 +75,16 @@ def special_case(rng, i):
         if rng.random() < 0.3:
             smp = {"wrap": smp, "n": 1}
         return {"profile": "longlist", "samples": [smp]}
+    elif i % 60 == 37:
+        # a key spelled exactly like the class name of the model it sits in ('Item' inside the object under 'Item' / 'item' / 'items',
+        # 'Root' in the root object): class-name and field-name conversion of one and the same text
+        n = rng.choice(["Item", "Order", "Point", "Entry", "UserProfile"])
+        outer = rng.choice([n, n[0].lower() + n[1:], n.lower() + "s", n])
+        inner = {n: rng.choice([1, "s", [1], None, {"v": 1}]), "qty": 1}
+        smp = {outer: inner if rng.random() < 0.6 else [inner, dict(inner, qty=2)], "id": 1}
+        if rng.random() < 0.5:
+            smp["Root"] = rng.choice([1, "s", {"Root": 1, "z": 2}])
+        return {"profile": "selfnamed", "samples": [smp]}
     return None
 
 
@@ -85,7 +95,7 @@ def adjust_opts(jc, opts):
         opts["merge"] = list(opts["merge"]) + [["exact"]]
     if jc["profile"] == "deep":
         opts["merge"], opts["dkr"], opts["dkf"] = [], [], []
-    if jc["profile"] == "longlist":
+    if jc["profile"] in ("longlist", "selfnamed"):
         opts["dkr"], opts["dkf"] = [], []
 
 
